@@ -74,6 +74,10 @@ type c07Plan struct {
 	Writers     int
 	Steps       []c07Step
 	Seeds       []int64
+	// AsyncPct: percentage of the client operations issued through the asynchronous API
+	// (Propose / ReadIndex + ReadLocalNode): every accepted request must deliver exactly
+	// one terminal result, also when its replica is removed, stopped or restarted meanwhile
+	AsyncPct int
 }
 
 type c07Role int
@@ -550,6 +554,7 @@ func (r *c07Run) change(k int, ch c07Change) (took bool, ok bool) {
 		r.applied++
 		if ch.kind == "remove" {
 			r.removals++
+			r.label("removal-took-effect")
 		}
 		if !r.settle(k, ch.String()) {
 			return took, false
@@ -582,6 +587,10 @@ func (r *c07Run) startJoiner(h *Host, rid uint64, role c07Role) bool {
 }
 
 func runC07(t *rapid.T, st *vfhelp.Stats, p c07Plan) ([]string, bool, bool) {
+	return runC07Fam(t, st, p, famE6C07, "C07")
+}
+
+func runC07Fam(t *rapid.T, st *vfhelp.Stats, p c07Plan, fam map[string]bool, prop string) ([]string, bool, bool) {
 	rec := NewRecorder()
 	c := NewCluster(ClusterOptions{Hosts: p.Hosts, Tan: p.Tan, Seed: 13, RTTms: 2})
 	defer c.Close()
@@ -658,6 +667,11 @@ func runC07(t *rapid.T, st *vfhelp.Stats, p c07Plan) ([]string, bool, bool) {
 				}
 				key := fmt.Sprintf("k%d", rnd.intn(2))
 				timeout := time.Duration(100+rnd.intn(200)) * time.Millisecond
+				if p.AsyncPct > 0 && rnd.intn(100) < p.AsyncPct {
+					c07Async(res, nh, h.Idx, w, key, timeout, rnd.intn(3) == 0, &valCtr, addOp)
+					time.Sleep(time.Duration(rnd.intn(2)) * time.Millisecond)
+					continue
+				}
 				ctx, cancel := context.WithTimeout(context.Background(), timeout)
 				if rnd.intn(3) == 0 {
 					op := addOp(&Op{Client: w, Host: h.Idx, Key: key, Call: Now(), Mode: "syncread"})
@@ -888,13 +902,13 @@ func runC07(t *rapid.T, st *vfhelp.Stats, p c07Plan) ([]string, bool, bool) {
 		if strings.HasPrefix(v.Sig, "harness-") {
 			return inconclusive(v.Sig)
 		}
-		if !famE6C07[v.Sig] {
+		if !fam[v.Sig] {
 			st.Count("foreign-violation:"+v.Sig, 1)
 			continue
 		}
 		art := map[string]interface{}{"plan": p, "violation": v, "labels": r.labels, "reference": r.model.String()}
 		if data, err := json.MarshalIndent(art, "", " "); err == nil {
-			_ = os.WriteFile("artefact-C07.json", data, 0o644)
+			_ = os.WriteFile("artefact-"+prop+".json", data, 0o644)
 		}
 		t.Logf("plan %+v", p)
 		if !st.Known(t, v.Sig, "%s", v.Msg) {
@@ -916,6 +930,121 @@ func runC07(t *rapid.T, st *vfhelp.Stats, p c07Plan) ([]string, bool, bool) {
 	}
 	nt := r.applied >= 3 && r.removals >= 1 && r.refused >= 1
 	return labels, nt, true
+}
+
+// c07Async issues one client operation through the asynchronous API and requires exactly
+// one terminal result within the request's deadline (plus the harness's 10 s grace).
+func c07Async(res *Result, nh *dragonboat.NodeHost, hi, w int, key string, timeout time.Duration, read bool, valCtr *int64, addOp func(*Op) *Op) {
+	if read {
+		op := addOp(&Op{Client: w, Host: hi, Key: key, Call: Now(), Mode: "readindex"})
+		rs, err := nh.ReadIndex(shardID, timeout)
+		if err != nil {
+			op.Outcome, op.Ret = classifyErr(err), Now()
+			return
+		}
+		r, code, _ := awaitResultX(rs, timeout)
+		if code != awaitOK {
+			what := "no-terminal-result"
+			if code == awaitExtra {
+				what = "two-results"
+			}
+			res.violate(what, "ReadIndex on host %d (timeout %v) while the membership changes: %s", hi, timeout, what)
+			op.Outcome, op.Ret = "noresult", Now()
+			return
+		}
+		res.flag("async-read-" + resultOutcome(r))
+		if r.Completed() {
+			v, err := nh.ReadLocalNode(rs, key)
+			if err == nil {
+				op.Val, _ = v.(string)
+			}
+			op.Outcome = classifyErr(err)
+		} else {
+			op.Outcome = resultOutcome(r)
+		}
+		op.Ret = Now()
+		rs.Release()
+		return
+	}
+	val := fmt.Sprintf("w%dv%d", w, atomic.AddInt64(valCtr, 1))
+	cmd := []byte("P|" + key + "|" + val)
+	op := addOp(&Op{Client: w, Host: hi, Write: true, Key: key, Val: val, Call: Now(), Mode: "propose"})
+	rs, err := nh.Propose(nh.GetNoOPSession(shardID), cmd, timeout)
+	if err != nil {
+		op.Outcome, op.Ret = "notproposed", Now()
+		return
+	}
+	r, code, _ := awaitResultX(rs, timeout)
+	if code != awaitOK {
+		what := "no-terminal-result"
+		if code == awaitExtra {
+			what = "two-results"
+		}
+		res.violate(what, "Propose %q on host %d (timeout %v) while the membership changes: %s", cmd, hi, timeout, what)
+		op.Outcome, op.Ret = "noresult", Now()
+		return
+	}
+	op.Outcome, op.Ret = resultOutcome(r), Now()
+	res.flag("async-write-" + op.Outcome)
+	if r.Completed() {
+		res.flag("write-completed")
+		op.Index = r.GetResult().Value
+		if string(r.GetResult().Data) != "R:"+string(cmd) {
+			res.violate("completed-with-foreign-result", "proposal %q completed with result data %q", cmd, r.GetResult().Data)
+		}
+	}
+	rs.Release()
+}
+
+// The asynchronous request API while the membership changes (C12): every Propose /
+// ReadIndex accepted by a replica delivers exactly one terminal result, also when that
+// replica applies its own removal, is stopped by the monitor, restarted or replaced.
+func TestVF_C12_Membership(t *testing.T) {
+	st := vfhelp.NewStats("TestVF_C12_Membership",
+		"E6 nhcluster: the generated membership change sequences of TestVF_C07_Cluster (add / promote / remove incl. the leader and the replica a client talks to, restarts, isolations, transfers, snapshots) under asynchronous client load (Propose / ReadIndex with 100-300 ms deadlines on every member); "+
+			"oracle = every accepted request delivers exactly one terminal result within its deadline (+10 s grace), a completed proposal carries its own result, completed requests are in the linearizable history; "+
+			"non-trivial = >= 1 removal took effect and asynchronous requests ended with >= 2 different codes; distinct = hash of the plan")
+	defer st.Flush()
+	rapid.Check(t, func(t *rapid.T) {
+		p := genC07Plan(t)
+		p.AsyncPct = 85
+		if p.Writers < 3 {
+			p.Writers = 3
+		}
+		// removals are what matters here
+		for i := range p.Steps {
+			if (p.Steps[i].Op == c07Invalid || p.Steps[i].Op == c07Race) && vfhelp.Pick(t, "toremove", 1) == 1 {
+				p.Steps[i].Op = c07Remove
+			}
+		}
+		if data, err := json.MarshalIndent(p, "", " "); err == nil {
+			_ = os.WriteFile("artefact-current-plan.json", data, 0o644)
+		}
+		labels, _, ok := runC07Fam(t, st, p, famE6C12, "C12")
+		if !ok {
+			return
+		}
+		codes, removed := 0, false
+		for _, l := range labels {
+			if strings.HasPrefix(l, "async-write-") || strings.HasPrefix(l, "async-read-") {
+				codes++
+			}
+			if l == "removal-took-effect" {
+				removed = true
+			}
+		}
+		canon, _ := json.Marshal(p)
+		sort.Strings(labels)
+		nt := codes >= 2 && removed
+		st.Case(canon, nt, labels...)
+		if nt && st.WantSample() {
+			var ss []string
+			for _, s := range p.Steps {
+				ss = append(ss, s.String())
+			}
+			st.Sample(map[string]interface{}{"hosts": p.Hosts, "kind": p.Kind.String(), "steps": strings.Join(ss, " "), "outcome": labels})
+		}
+	})
 }
 
 // invalid issues one request that the statement says must never take effect.
